@@ -340,6 +340,8 @@ public:
 	*/
 	String readString(int n)
 	{
+		if (n < 0)
+			n = 0;
 		String s(n, 0);
 		n = read(&s[0], n);
 		if (n >= 0)
